@@ -71,6 +71,31 @@ func init() {
 		for i, cc := range corpus.CRLs {
 			crlSeq[i] = resultsOf(zlint.LintRevocationList(cc.CRL))
 		}
+		// reference filters: every ordered pair of sources as IncludeSources (and as ExcludeSources), plus random options;
+		// the lints each selects when called alone
+		var fspecs []FilterSpec
+		for _, a := range srcs {
+			for _, b := range srcs {
+				if a != b {
+					fspecs = append(fspecs, FilterSpec{IncludeSources: []string{a, b}})
+				}
+			}
+			fspecs = append(fspecs, FilterSpec{IncludeSources: []string{a}}, FilterSpec{ExcludeSources: []string{a}})
+		}
+		for i := 0; i < 40; i++ {
+			fspecs = append(fspecs, randomFilterSpec(rng, names, srcs, true))
+		}
+		frefs := make([]string, len(fspecs))
+		filterNames := func(f FilterSpec) string {
+			fr, e := g.Filter(f.opts())
+			if e != nil {
+				return "error: " + e.Error()
+			}
+			return strings.Join(fr.Names(), ",")
+		}
+		for i, f := range fspecs {
+			frefs[i] = filterNames(f)
+		}
 		refNames := fmt.Sprint(g.Names())
 		var refJSON bytes.Buffer
 		g.WriteJSON(&refJSON)
@@ -125,8 +150,9 @@ func init() {
 									report("WriteJSON output changed under concurrency")
 								}
 							case 4:
-								if _, e := g.Filter(randomFilterSpec(lr, names, srcs, true).opts()); e != nil && false {
-									report(e.Error())
+								fi := lr.Intn(len(fspecs))
+								if got := filterNames(fspecs[fi]); got != frefs[fi] {
+									report(fmt.Sprintf("Filter(%+v) selects %d lints concurrently, %d alone", fspecs[fi], strings.Count(got, ",")+1, strings.Count(frefs[fi], ",")+1))
 								}
 							default:
 								_ = g.BySource(lint.LintSource(srcs[lr.Intn(len(srcs))]))
@@ -190,6 +216,45 @@ func init() {
 				}
 			}
 			runtime.GOMAXPROCS(prev)
+		}
+		// concurrent Filter calls on the shared registry (every goroutine walks the reference filters in its own order)
+		{
+			var wg sync.WaitGroup
+			var mu sync.Mutex
+			var problems []string
+			rounds := 2
+			if tier() == "thorough" {
+				rounds = 12
+			}
+			for w := 0; w < 8; w++ {
+				wg.Add(1)
+				go func(id int) {
+					defer wg.Done()
+					defer func() {
+						if p := recover(); p != nil {
+							mu.Lock()
+							problems = append(problems, fmt.Sprintf("Filter panicked: %v", p))
+							mu.Unlock()
+						}
+					}()
+					lr := NewRng(seedFromEnv(), fmt.Sprintf("c10-filter-%d", id))
+					for k := 0; k < rounds*len(fspecs); k++ {
+						fi := lr.Intn(len(fspecs))
+						if got := filterNames(fspecs[fi]); got != frefs[fi] {
+							mu.Lock()
+							if len(problems) < 10 {
+								problems = append(problems, fmt.Sprintf("Filter(%+v) selects %d lints when called concurrently with other Filter calls, %d alone", fspecs[fi], strings.Count(got, ",")+1, strings.Count(frefs[fi], ",")+1))
+							}
+							mu.Unlock()
+						}
+					}
+				}(w)
+			}
+			wg.Wait()
+			out.Stats["concurrent_filter_calls"] = 8 * rounds * len(fspecs)
+			for _, p := range problems {
+				out.Violate("C10|concurrent-filter-differs", p, map[string]interface{}{"goroutines": 8, "seed": seedFromEnv()}, nil, nil)
+			}
 		}
 		// cold start: in a fresh process the very first lint calls are concurrent (lazily initialised shared state is only
 		// vulnerable before the first call completes); each trial is a new process compared with a sequential cold process
